@@ -164,12 +164,23 @@ def rule_p2(F):
                 if gp is None:
                     guard_unknown = True
             ord_rows.append((a.split("::")[1], gp, verdict, arm.get("guard") is not None))
-    if guard_unknown:
+    evaluable = True
+    try:
+        from .. import symex as _sx0
+        for a_ in OPS:
+            for b_ in OPS:
+                g_, _e = _sx0.run_function(rb.hir, {0: a_, 1: b_}, F=F)
+                if not isinstance(g_, str) or isinstance(g_, _sx0.Sym):
+                    evaluable = False
+    except Exception:
+        evaluable = False
+    # the structural reading (guards, the comparison expression) only matters where the relation cannot be computed by evaluation
+    if guard_unknown and not evaluable:
         r.bad(rb.path, "guard", relfile(rb.file), cm["line"], "a guard in relative_associativity is not of the form matches!((self, other), (BinOp::X, BinOp::Y) | ..): the relation cannot be computed")
     sc = cm["e"]
     cmp_ok = sc.get("k") == "mcall" and sc["m"] == "cmp" and roots(None, sc["recv"]) == {"self"} and roots(None, sc["args"][0]) == {"other"} \
         and all(n.get("m") in ("precedence", "cmp") for n in hir.nodes(sc, "mcall"))
-    if not cmp_ok:
+    if not cmp_ok and not evaluable:
         r.bad(rb.path, "comparison", relfile(rb.file), cm["line"], "relative_associativity does not compare self.precedence() with other.precedence()")
 
     def rel(a, b):
@@ -223,6 +234,9 @@ def rule_p2(F):
     else:
         for row in hir.table(am[0]):
             a = row["alts"][0]
+            mm_ = re.search(r"Associativity::(Right|Left|Not)", a)
+            if mm_:
+                a = mm_.group(0)      # `Some((_, Associativity::Left))` reacts to Left
             body = hir.strip(row["body"])
             has_break = any(n.get("k") == "break" for n in hir.walk(body))
             has_err = any((hir.result_desc(n.get("e")) or "").find("Err") >= 0 for n in hir.nodes(body, "ret"))
@@ -242,6 +256,22 @@ def rule_p2(F):
         init = ld.get(l)[1] if l is not None and ld.get(l) else sc
         call = [c for c in hir.nodes(init, "mcall") if c["m"] == "relative_associativity"]
         ok = bool(call) and klass(be, ld, call[0]["recv"]) == {"PREV"} and klass(be, ld, call[0]["args"][0]) == {"OP"}
+        if not ok:
+            # the question may be asked inside a closure (`prev.map(|prev| (prev, prev.relative_associativity(&operator)))`): evaluate the
+            # method (vf/sx) and look at the first such call of every path: receiver = the `prev` parameter, argument = the peeked operator
+            try:
+                from .. import sx
+                pname = be.hir["params"][1].get("name") if len(be.hir["params"]) > 1 else None
+                firsts = []
+                for _, evs in sx.Exec(F, opaque={be.path}).paths(be.hir, {}):
+                    ra = [e for e in evs if e[0] == "mcall" and e[1] == "relative_associativity"]
+                    if ra:
+                        firsts.append(ra[0])
+                ok = bool(firsts) and pname is not None and all(
+                    sx.mentions(e[2], pname) and not sx.mentions(e[2], "peek_binop") and len(e[3]) == 1 and "peek_binop" in str(e[3][0]) and not sx.mentions(e[3][0], pname)
+                    for e in firsts)
+            except Exception:
+                ok = False
         r.inst("relative_associativity(prev, operator)")
         if not ok:
             r.bad(be.path, "relative_associativity operands", relfile(be.file), be.line, "the parser must ask prev.relative_associativity(&operator)")
